@@ -790,7 +790,7 @@ pub fn run(ctx: &Ctx) -> Rec {
   rec.merge(r2);
   rec.merge(par_run(ctx, "mixed-degree", ctx.n(400, 20_000), |rec, i, rng| mixed_degree_evaluator(rec, ctx, i, rng)));
   // every threshold 1..=T once (O(t^2) inversions each): 320 quick, 1400 thorough
-  let tmax = if ctx.thorough() { 1400 } else { 320 };
+  let tmax: u64 = (((if ctx.thorough() { 1400 } else { 320 }) as f64) * ctx.scale.min(1.0)).ceil() as u64;
   rec.merge(par_run(ctx, "threshold-sweep", tmax, |rec, i, rng| threshold_sweep(rec, ctx, tmax - 1 - i, rng)));
   rec.note("threshold_sweep_max", json!(tmax));
   rec.merge(par_run(ctx, "long-iterator", ctx.n(4, 32), |rec, i, rng| long_iterator(rec, ctx, i, rng)));
